@@ -27,10 +27,25 @@ Clauses(e) ==
 
 Failing(e) == LET c == Clauses(e) IN { k \in DOMAIN c : ~c[k] }
 
+(* Which "extend" branch (remainder in (0, 1/1000] of a measure or of a beat) the input reaches,
+   computed from the input alone; printed with a rejection so that a recorded finding can be
+   identified by its input class. *)
+ExtendTag(e) ==
+    LET in == e.tl
+        D(k) == StartTicks(in, e.G, 0, k+1) - StartTicks(in, e.G, 0, k)
+        ML(k) == in[k].bl * in[k].met
+        BpmExt(k) == D(k) % ML(k) > 0 /\ (D(k) % ML(k)) <= ML(k) \div 1000
+        MetExt(k) == ~BpmExt(k) /\ D(k) % in[k].bl > 0 /\ (D(k) % in[k].bl) <= in[k].bl \div 1000
+        K == 1..Len(in)-1
+    IN  IF \E k \in K : MetExt(k) THEN "ext_metronome"
+        ELSE IF \E k \in K : BpmExt(k) /\ D(k) < ML(k) THEN "ext_bpm_first_measure"
+        ELSE IF \E k \in K : BpmExt(k) THEN "ext_bpm"
+        ELSE "plain"
+
 Init == l = 1 /\ nbad = 0
 Next == /\ l <= Len(TLog)
         /\ LET f == Failing(TLog[l]) IN
-             /\ (f # {} => PrintT(ToJson([id |-> TLog[l].id, failing |-> f])))
+             /\ (f # {} => PrintT(ToJson([id |-> TLog[l].id, failing |-> f, tag |-> ExtendTag(TLog[l])])))
              /\ nbad' = nbad + (IF f = {} THEN 0 ELSE 1)
         /\ l' = l + 1
 Spec == Init /\ [][Next]_<<l, nbad>>
